@@ -1,4 +1,5 @@
 import itertools
+import math
 from typing import Any, Optional, Tuple
 
 from pdfminer.utils import Matrix, Rect
@@ -16,9 +17,13 @@ def safe_int(o: Any) -> Optional[int]:
 
 def safe_float(o: Any) -> Optional[float]:
     try:
-        return float(o)
-    except (TypeError, ValueError):
+        f = float(o)
+    except (TypeError, ValueError, OverflowError):
         return None
+    if not math.isfinite(f):
+        # a real written with hundreds of digits reads as infinity
+        return None
+    return f
 
 
 def safe_matrix(a: Any, b: Any, c: Any, d: Any, e: Any, f: Any) -> Optional[Matrix]:
